@@ -775,7 +775,7 @@ func genPlan() *rapid.Generator[Plan] {
 				toks = append(toks, pl.Mounts[rapid.IntRange(0, len(pl.Mounts)-1).Draw(t, "which")].Prefix...)
 			}
 			n := rapid.IntRange(0, 4).Draw(t, "ntok")
-			if len(toks) == 0 && n == 0 {
+			if len(toks) == 0 && n == 0 && (pl.RootPath == "" || rapid.IntRange(0, 2).Draw(t, "rootpattern") > 0) {
 				n = 1
 			}
 			var params []string
@@ -1035,6 +1035,20 @@ func TestRegressGroupTagThroughMount(t *testing.T) {
 		msg, _ = checkLookup(b, pl, "sub.v")
 	}
 	evid.ReportKnown(t, prop, "C06-group-tag-through-mount", msg != "", msg, map[string]interface{}{"plan": pl, "name": "sub.v"})
+	ev.CountDistinct(1, 1)
+}
+
+func TestRegressRootPatternTrailingSeparator(t *testing.T) {
+	// the mux path followed by a lone separator is not the name of the root resource
+	pl := Plan{RootPath: "svc", Regs: []Reg{{Full: nil, At: 0, Marker: 1}}}
+	msg := ""
+	b, err := build(pl)
+	if err != nil {
+		msg = err.Error()
+	} else {
+		msg, _ = checkLookup(b, pl, "svc.")
+	}
+	evid.ReportKnown(t, prop, "C06-root-handler-matches-trailing-separator", msg != "", msg, map[string]interface{}{"plan": pl, "name": "svc."})
 	ev.CountDistinct(1, 1)
 }
 
